@@ -177,7 +177,9 @@ def _unify(p: ast.AST, n: ast.AST, metas, b: Dict[str, str]) -> None:
     if isinstance(p, ast.Expr) and not isinstance(n, ast.Expr):
         return _unify(p.value, n, metas, b)
     if type(p) is not type(n):
-        raise _NoMatch()
+        # a list comprehension and a generator expression consumed by the same call are interchangeable
+        if not (isinstance(p, (ast.ListComp, ast.GeneratorExp)) and isinstance(n, (ast.ListComp, ast.GeneratorExp))):
+            raise _NoMatch()
     for fname, pv in ast.iter_fields(p):
         if fname in ("ctx", "lineno", "col_offset", "end_lineno", "end_col_offset", "type_comment", "kind"):
             continue
@@ -406,3 +408,26 @@ def eq_const(test: ast.AST, lhs: str):
         if norm(b) == lhs and isinstance(a, ast.Constant):
             return a.value
     return ...
+
+
+def index_domain(loop: ast.For) -> Tuple[Optional[str], List[str]]:
+    """(index variable, [sequences whose every index the loop visits in order]) for the loop headers
+    `for i in range(len(X))`, `range(X.shape[0])`, `for i, v in enumerate(X)`, `for i, (a, b) in enumerate(zip(A, B))`;
+    (None, []) if the header is not of that kind."""
+    it, tg = loop.iter, loop.target
+    if isinstance(it, ast.Call) and call_name(it) == "range" and len(it.args) == 1 and isinstance(tg, ast.Name):
+        a = it.args[0]
+        m = pmatch(a, "len(X)", {"X"})
+        if m and m[0][0] is a:
+            return tg.id, [m[0][1]["X"]]
+        m = pmatch(a, "X.shape[0]", {"X"})
+        if m and m[0][0] is a:
+            return tg.id, [m[0][1]["X"]]
+        return tg.id, []
+    if isinstance(it, ast.Call) and call_name(it) == "enumerate" and len(it.args) == 1 and isinstance(tg, ast.Tuple) and len(tg.elts) == 2 \
+            and isinstance(tg.elts[0], ast.Name):
+        inner = it.args[0]
+        if isinstance(inner, ast.Call) and call_name(inner) == "zip":
+            return tg.elts[0].id, [norm(x) for x in inner.args]
+        return tg.elts[0].id, [norm(inner)]
+    return None, []
